@@ -124,9 +124,17 @@ type vCallback struct {
 	at   int64
 }
 
-type vfakeHandler struct{ log []vCallback }
+type vfakeHandler struct {
+	log     []vCallback
+	onEvent func(name string)
+}
 
-func (h *vfakeHandler) add(n string)          { h.log = append(h.log, vCallback{n, nowNs()}) }
+func (h *vfakeHandler) add(n string) {
+	h.log = append(h.log, vCallback{n, nowNs()})
+	if h.onEvent != nil {
+		h.onEvent(n)
+	}
+}
 func (h *vfakeHandler) BeforeRebalanceStart() { h.add("BRS") }
 func (h *vfakeHandler) AfterRebalanceStart()  { h.add("ARS") }
 func (h *vfakeHandler) BeforeRebalanceEnd()   { h.add("BRE") }
